@@ -49,6 +49,14 @@ def execute(acc, case):
                 return
             sc.read_emitted()
             sc.net.write_len = write_script(rng, case["write"])
+            assoc = sc.node._association
+            _flush = assoc.send_message_from_queue
+
+            def counting_flush():
+                _flush()
+                if not assoc._send_messages.empty():
+                    acc.counters["batch_limit_reached"] += 1     # a flush that had to leave messages for the next batch
+            assoc.send_message_from_queue = counting_flush
             submitted = {}          # marker -> bytes
             per_sub = []
             seq = 0
@@ -57,7 +65,7 @@ def execute(acc, case):
                 mine = []
                 for j in range(case["per"]):
                     seq += 1
-                    size = rng.choice([0, 0, 5, 100, 1000]) if not case.get("big") else rng.choice([100, 20000, 70000])
+                    size = rng.choice([0, 0, 5, 100, 1000]) if not case.get("big") else rng.choice([20000, 70000, 70000])
                     lm = N.app_request(seq, size=size, host=N.LOCAL[0], realm=N.LOCAL[1], dest_realm=N.PEER[1]) if rng.random() < 0.7 \
                         else N.app_answer(seq, size=size, host=N.LOCAL[0], realm=N.LOCAL[1])
                     enc = R.encode(lm)
@@ -87,8 +95,9 @@ def execute(acc, case):
                     inbound_sent.append(m)
                     sc.inject(R.encode(m))
                     sc.sched.run_until(lambda: False, rng.choice([0.0002, 0.001, 0.003]), "inbound-gap")
-            sc.sched.run_until(lambda: len(done) == len(plans), 30.0, "submitters")
-            quiet = sc.quiesce(timeout=30.0)
+            t_submit = sc.sched.now
+            sc.sched.run_until(lambda: len(done) == len(plans), 8.0, "submitters")
+            quiet = sc.quiesce(timeout=8.0)
             acc.counters["executions"] += 1
             sc._pull()
             written = bytes(sc.emitted_buf)
@@ -154,8 +163,14 @@ def execute(acc, case):
                         acc.counters["messages_written_ok"] += len(markers)
         except vsched.DeadlockError as ex:
             acc.violation("deadlock", "deadlock: %s" % ex, dict(wit, stacks=sc.sched.stacks()))
+        except vsched.WallClock as ex:
+            acc.inconclusive.append("%s (case %r)" % (ex, case))
         except vsched.StepBudget as ex:
-            acc.inconclusive.append("step budget exhausted: %s (case %r)" % (ex, case))
+            if "t_submit" in dir() and sc.sched.now - t_submit > 2.0:
+                acc.violation("outbound-never-settles", "%.1f virtual s after submission the node is still busy (step budget reached): %s" % (
+                    sc.sched.now - t_submit, sc.sched.blocked_report()), dict(wit, schedule=sc.sched.schedule_hash()))
+            else:
+                acc.inconclusive.append("step budget exhausted: %s (case %r)" % (ex, case))
         cov = sc.coverage()
     acc.evaluations += 1
     acc.sigs.add(harness.sig_hash("%s/%s/%s/%s" % (case["write"], bool(case["inbound"]), case["submitters"], cov["schedule"])))
@@ -181,9 +196,10 @@ def plan(tier, seed):
         cases.append({"seed": seed * 100019 + i, "submitters": rng.choice([1, 1, 2, 3, 4]), "per": rng.choice([1, 2, 3, 5, 10, 30]) if not q else rng.choice([1, 2, 3, 5]),
                       "write": rng.choice(writes), "inbound": rng.choice([0, 0, 2, 5]), "strategy": rng.choice(["rr", "rw", "rw"]),
                       "p": rng.choice([0.02, 0.1, 0.3]), "role": rng.choice(["client", "server"]), "batch": rng.random() < 0.3})
-    for i in range(2 if q else 30):
-        cases.append({"seed": seed * 733 + i, "submitters": 2, "per": 4, "big": True, "write": rng.choice(["full", "fixed4096", "random"]),
-                      "inbound": 0, "strategy": "rr", "role": "client"})
+    for i in range(6 if q else 60):
+        # aggregate above the 256 KiB batching limit, handed over in one send_messages() call
+        cases.append({"seed": seed * 733 + i, "submitters": rng.choice([1, 2]), "per": 8, "big": True, "batch": True,
+                      "write": rng.choice(["full", "fixed4096", "random"]), "inbound": 0, "strategy": rng.choice(["rr", "rw"]), "p": 0.05, "role": "client"})
     return cases
 
 
@@ -198,7 +214,7 @@ def main(tier, seed):
                           ["node-originated CER/CEA/DWR/DWA/DPR/DPA are legal in the outbound stream when they appear whole at message boundaries",
                            "vnet models Linux TCP send(): accepts a prefix or raises BlockingIOError",
                            "quiescence = all queues and buffers empty and two state-machine ticks without change"],
-                          t0, require_counters=("executions", "steps", "partial_sends"))
+                          t0, require_counters=("executions", "steps", "partial_sends", "batch_limit_reached"))
 
 
 def replay(w):
